@@ -11,6 +11,7 @@ Inductive err :=
 | KeyErr          (* KeyError *)
 | IndexErr        (* IndexError *)
 | CFIStateErr     (* gtirb_rewriting.dwarf.cfi_eval.CFIStateError *)
+| NotImplementedErr
 | OutOfFuel.      (* model artefact: never produced under the theorems' hypotheses *)
 
 Inductive result (A : Type) :=
